@@ -1,8 +1,10 @@
 /- the list of stateless protocol handlers, one per slice (add an import and an entry per slice) -/
 import Restful.Driver.SExp
 import Restful.Driver.RoutingExtra
+import Restful.Driver.Serve
+import Restful.Driver.Response
 namespace Restful.Driver
 
-def statelessHandlers : List (SExp → Option String) := [handleSame, handleClass]
+def statelessHandlers : List (SExp → Option String) := [handleSame, handleClass, handleServe, handleResponse]
 
 end Restful.Driver
